@@ -1,6 +1,6 @@
 HOOK_COMMITS = []
 ENGINES = [
-    {"name": "explore", "path": "vf/core/explore.py", "serves_properties": ["C01", "C02", "C03", "C07", "C08", "C09", "C11", "C13", "C14", "C15", "C16", "C17", "C18", "C20"], "kind_free_text": "explicit-state BFS with state merging over the real objects; bounded product enumeration; deviation-bounded stateless DFS"},
+    {"name": "explore", "path": "vf/core/explore.py", "serves_properties": ["C01", "C02", "C03", "C07", "C08", "C09", "C11", "C13", "C14", "C15", "C04", "C12", "C16", "C17", "C18", "C20"], "kind_free_text": "explicit-state BFS with state merging over the real objects; bounded product enumeration; deviation-bounded stateless DFS"},
     {"name": "vthreads", "path": "vf/core/vthreads.py", "serves_properties": ["C06", "C19"], "kind_free_text": "baton scheduler over real threads with scheduler-aware queue/future/executor shims and sys.settrace line points; deviation-bounded DFS over schedules; deadlock and livelock detection"},
     {"name": "vloop", "path": "vf/core/vloop.py", "serves_properties": ["C05", "C06", "C10", "C19"], "kind_free_text": "virtual asyncio event loop stepped by hand: ready-queue steps, environment events and timers are explicit choices explored exhaustively by explore.dfs"},
 ]
@@ -113,5 +113,17 @@ CHECKS = {
         technique="exhaustive enumeration of response recipes x fault positions judged by prefix-closed gateway-protocol automata; disconnect positions as interleavings on the virtual loop",
         text="1176 small-response recipes (7 status codes incl. unknown ones x 7 content kinds x 4 header sets x 3 cookie sets), streams and event streams of 0..3 items with the producer failing at every step, file responses x 5 download names (ASCII, Latin-1, CJK, quote) x 8 Range variants incl. every error path x GET/HEAD x chunk sizes, on WSGI, ASGI and ASGI+zero-copy; for each, send() failing at every call index (ASGI) / close() after every item (WSGI); http.disconnect at every interleaving position of the ASGI streaming responses. The emitted sequence must be accepted by the ASGI http / WSGI automata as complete (no fault) or as a legal prefix (fault).",
         note="finite argument menus; a failing send raises OSError; header arguments without control characters (C13's subject)",
+    ),
+    "C04": dict(
+        engine="explore", level="exploration", design_ref="DESIGN.md §3 C04",
+        technique="bounded exhaustive differential enumeration: the same abstract request and the same program recipe run on the WSGI and the ASGI stack, outputs compared",
+        text="Request view: 3360 abstract requests (methods x ASCII/non-ASCII/empty paths x roots x 5 queries x 14 header menus x client present/absent) and 5 body kinds under every two-way split (plus empty pieces and a three-way split), dumped by an echo view (method, URL and parts, headers, query, cookies, content type/length, accepted types, client, date, referrer, body, JSON, form fields and files, path parameters). Responses: 1176 small-response recipes, streams and event streams, FileResponse x chunk sizes {2,4,8,default} x 13 Range values x 3 If-Range values x GET/HEAD. Applications: nested Subpaths with Pages/Files/Router mounted (non-ASCII mount included), Hosts, middleware over mounts, Files with handle_404, Pages with cache settings, over 43 paths x 5 Host values x 7 conditional/range header sets x 2 roots. Equality of status, header multiset, body and exception class; only the ASGI event stream's Connection header is exempt.",
+        note="finite recipe and request menus; duplicate request header names excluded (gateway-dependent); no hand-written expected values",
+    ),
+    "C12": dict(
+        engine="explore", level="exploration", design_ref="DESIGN.md §3 C12",
+        technique="exhaustive enumeration inside a deterministic mutation grammar over every request-derived entry point, both interfaces",
+        text="For 11 request headers: every single edit (delete, duplicate delimiter, insert each of 19 hostile characters at every position, truncate at every position, number/charset/boundary replacements) of 2-4 valid base values plus all noise strings up to length 3, through all header-derived accessors incl. url/referrer components and repr; paths with NUL/CR/LF/invalid UTF-8/over-long segments and hostile query strings through url, query_params, Router (all convertors), Subpaths, Hosts, Files, Pages; JSON, urlencoded and multipart bodies valid / truncated at every position / every byte replaced by 6 (thorough 10) hostile bytes / deleted, with 16 charsets and 11 boundary variants, huge numbers, deep nesting, header lines without colon; Range/If-Range/If-None-Match/If-Modified-Since edits through FileResponse, Files, Pages. Outcome must be a value, an HTTP 4xx exception, ClientDisconnect or 'Stream consumed'. Thorough adds double insertions.",
+        note="exhaustive only inside the edit grammar - the weakest relation between bound and unbounded claim of all properties; header values without CR/LF/NUL (a server rejects them first)",
     ),
 }
